@@ -96,6 +96,7 @@ def aggregate(reports):
             if o["verdict"] == "refuted":
                 if a["verdict"] != "refuted":
                     a["model"] = o["model"]
+                    a["detail"] = o["detail"]
                 a["verdict"] = "refuted"
                 a["paths"].append(o["path_id"])
             elif o["verdict"] == "unknown" and a["verdict"] == "discharged":
@@ -263,6 +264,10 @@ def main(argv=None):
                 violations.append((name, rp, True))
             elif baseline.get(name) == "discharged":
                 violations.append((name, rp, False))
+            elif ag["kind"] == "raises" and any(n.startswith(name.split("::")[0] + "::") for n in baseline) and not any(
+                    n.startswith(name.split("::")[0] + "::raises:") for n in baseline):
+                # an exception now escapes a function whose contract (no such exception) was discharged in the committed baseline
+                violations.append((name, rp, False))
             else:
                 undecided.append(f"{name}: refuted by the solver but not reproduced natively and not in the discharged baseline ({res.get('why')})")
         elif ag["verdict"] == "unknown":
@@ -278,6 +283,8 @@ def main(argv=None):
 
     # vacuity / baseline guards
     missing = [n for n, v in baseline.items() if v == "discharged" and n not in agg and ("::post:" in n or n.startswith("lemma:"))]
+    if a.only:
+        missing = []
     und_targets = {rep["target"].partition(":")[2] for rep in reports if rep["status"] != "ok"}
     missing = [n for n in missing if n.split("::")[0] not in und_targets]
 
